@@ -415,7 +415,7 @@ def run(model, col, tier):
     from ..report import Collector
 
     sub = Collector("C03")
-    c03.run(model, sub, "quick")
+    c03.run(model, sub, "quick", share=False)
     for ob in sub.obligations:
         if ob.rule in ("R03.4", "R03.6"):
             ob.rule = "R10.5"
